@@ -83,7 +83,7 @@ AppendsPkg(mt) == mt \in {"css", "html"}                             \* append(u
 
 DomainShapes == AllShapes \ {"add", "cmdin"}                         \* the property's domain on the unchanged tree
 CoreShapes == DomainShapes \ {"cssD", "jsi", "upper", "svg2", "htmlD", "htmlM", "htmlS3", "svgG", "htmlCG"}
-SmallShapes == {"cssi", "svg1", "htmlS", "cssG", "gatere", "matchP"}
+SmallShapes == {"cssi", "htmlS", "cssG", "gatere", "matchP"}
 PairShapes == {"cssi", "svg0", "htmlS", "gate"}
 QuickShapes == {"css", "cssi", "svg0", "svg1", "htmlS", "htmlG", "svgG", "gatere", "matchP", "cmd", "none"}
 
